@@ -127,7 +127,7 @@ PROPS = {
                      "families, 1e-12 relative elsewhere; oracle: returns, n, length 2^n, float64, finite, v[0]==0, SA (exact rationals, rtol 1e-9), monotone for XOS/XS/OXS/budget/coverage, "
                      "seed-determinism except graph_generator keys and predictible_factory. non-trivial = >=3 distinct values and not symmetric under any transposition; distinct by (key,n,seed)"),
             "trusted": ["numpy distributions stay in their documented ranges; networkx graph generators"]},
-    "C09": {"lean": ["ICG.Props.C09", "ICG.Props.Compose", "ICG.Lemmas.ComposeCore"], "streams": [("corr_env", "C09")], "quick_s": 60, "thorough_s": 600, "rule": _ENV_RULE,
+    "C09": {"lean": ["ICG.Props.C09", "ICG.Props.Compose", "ICG.Lemmas.ComposeCore", "ICG.Props.FloatErrorNorms"], "streams": [("corr_env", "C09")], "quick_s": 60, "thorough_s": 600, "rule": _ENV_RULE,
             "assumptions": ["bound computer and gap function are parameters of the theorems; the stream takes bounds and gaps from the real code on a fresh real game with the same knowledge",
                             "the normalised hidden game is an input (real normalize_game); 'reward never positive' is proved under the hypothesis that the gap is non-negative (C07)"]},
     "C13": {"lean": ["ICG.Props.C13", "ICG.Lemmas.ExpectedGreedy"], "streams": [("corr_env", "C13"), ("corr_search", "C13greedy")], "quick_s": 90, "thorough_s": 900,
